@@ -4,7 +4,7 @@
    nat, positive, N, Z, ascii stay the extracted inductives. *)
 Require Import Strum.Model.Bytes Strum.Model.Defs Strum.Model.Heck Strum.Model.HeckU Strum.Model.Meta Strum.Model.Names
                Strum.Model.FromStr Strum.Model.Display Strum.Model.Iter Strum.Model.IterProg Strum.Model.Table Strum.Model.Misc
-               Strum.Model.Repr Strum.Model.Reject Strum.Spec.FromStrSpec Strum.Model.Paths.
+               Strum.Model.Repr Strum.Model.ReprProg Strum.Model.Reject Strum.Spec.FromStrSpec Strum.Model.Paths.
 From Coq Require Extraction ExtrOcamlBasic.
 Extraction Language OCaml.
 Extraction "../extract/model.ml"
@@ -26,4 +26,5 @@ Extraction "../extract/model.ml"
   vspell vci matches_b eligible_b non_overlap_b all_vprops
   refs_ok ref_ok
   outcome rule_applies all_rules all_derives
-  gen_from_repr gen_from_repr_legacy run_from_repr rustc_discr repr_range discr_ty.
+  gen_from_repr gen_from_repr_legacy run_from_repr rustc_discr repr_range discr_ty
+  gen_repr_prog eval_chain run_repr_prog.
